@@ -110,6 +110,7 @@ class World:
         self.has_truth = True   # every document in docs is one of gts (so entry ids can be computed)
         self.sparse = {}        # relative path tuple -> size: files created with truncate() only (no data blocks)
         self.symlinks = {}      # relative path tuple -> relative target path tuple (symbolic link to a regular file)
+        self.mounts = []        # relative directory paths on which a fresh tmpfs is mounted before the files are created
 
     def add_file(self, path, content, group=None):
         """returns False (and does nothing) when the path collides with an existing file or directory"""
@@ -239,7 +240,15 @@ def path_bytes(root, comps):
 def materialise(w, base):
     root = os.path.join(base, "r")
     os.makedirs(root)
-    for d in sorted(w.dirs):
+    w.mounted = []
+    for m in sorted(getattr(w, "mounts", [])):
+        mp = path_bytes(root, m)
+        os.makedirs(mp, exist_ok=True)
+        if subprocess.run(["mount", "-t", "tmpfs", "-o", "size=16m", "tmpfs", mp], stdout=subprocess.DEVNULL, stderr=subprocess.DEVNULL).returncode == 0:
+            w.mounted.append(mp)
+    # creation order matters on a fresh tmpfs (inode numbers are handed out sequentially): directories and files are
+    # created in the order the world lists them when it says so
+    for d in (getattr(w, "dir_order", None) or sorted(w.dirs)):
         os.makedirs(path_bytes(root, d), exist_ok=True)
     groups = {}
     for p, (content, grp) in sorted(w.files.items()):
@@ -291,11 +300,12 @@ def snapshot(root):
                     st = os.stat(fp)
                 except OSError:
                     continue
+            ident = (st.st_dev, st.st_ino)        # a file's identity is (device, inode): inode numbers repeat across devices
             if st.st_size > (1 << 26):
-                files[comps + (f,)] = (b"<sparse %d>" % st.st_size, st.st_ino)     # never read: it has no data blocks
+                files[comps + (f,)] = (b"<sparse %d>" % st.st_size, ident)     # never read: it has no data blocks
                 continue
             with open(fp, "rb") as h:
-                files[comps + (f,)] = (h.read(), st.st_ino)
+                files[comps + (f,)] = (h.read(), ident)
     return dirs, files
 
 def ptok(comps):
@@ -360,6 +370,8 @@ def execute(w, keep=False, timeout=30):
         build_lines(r)
         return r
     finally:
+        for mp in reversed(getattr(w, "mounted", [])):
+            subprocess.run(["umount", "-l", mp], stdout=subprocess.DEVNULL, stderr=subprocess.DEVNULL)
         if not keep:
             shutil.rmtree(base, ignore_errors=True)
 
@@ -790,4 +802,25 @@ def gen_world_short_match(rng, flip=False):
     w.add_file((b"bystander", b"note.txt"), b"do not touch")
     w.has_truth = False
     w.tag = "short read matching a crafted hash"
+    return w
+
+
+def gen_world_two_devices(rng):
+    """C02 / C17: scan and export directories on two different file systems whose inode numbers coincide (a fresh
+    tmpfs hands them out sequentially): files are the same object only if device AND inode agree"""
+    w = World()
+    ln = rng.range(4, 9)
+    f = TFile(ln, [b"one"], gen_content(rng, ln))
+    g = GT(b"one", rng.choice([2, 3, 4]), [f], False)
+    w.gts = [g]; w.docs = [g.doc]
+    w.export = (b"export",)
+    w.scan = [(b"scanm",)]
+    w.mounts = [(b"export",), (b"scanm",)]
+    tgt = tuple(g.target(w.export, f))                      # export/<hash>/Data/one : two directories, then the file
+    w.dirs = {(b"export",), (b"scanm",), tgt[:2], tgt[:3], (b"scanm", b"d1"), (b"scanm", b"d1", b"d2")}
+    w.dir_order = [(b"export",), (b"scanm",), tgt[:2], tgt[:3], (b"scanm", b"d1"), (b"scanm", b"d1", b"d2")]
+    cut = rng.below(ln)
+    w.files[tgt] = (f.content[:cut] + bytes(ln - cut), None)            # declared length, zero tail: a partial download
+    w.files[(b"scanm", b"d1", b"d2", b"copy")] = (f.content, None)      # the complete copy, first file of its file system too
+    w.tag = "scan and export on two devices with equal inode numbers"
     return w
